@@ -401,7 +401,7 @@ func init() {
 				if len(sum.Ret) == 0 {
 					bad = "no result summary"
 				} else {
-					for r := range closure(sum, sum.Ret[0]) {
+					for r := range closure(sum, unmarkAddr(sum.Ret[0])) {
 						if !strings.HasPrefix(r, "R") {
 							bad = "result reaches " + r + " (shared with the parent set)"
 						}
@@ -583,7 +583,7 @@ func init() {
 				}
 				pre := fmt.Sprintf("P%d", t.param)
 				start := pset{}
-				start.addAll(sum.Ret[0])
+				start.addAll(unmarkAddr(sum.Ret[0]))
 				if t.rule == "baseclone" {
 					// also what the parser stores into the url it was given (setter route) must not reach the base
 					for k, h := range sum.Heap {
@@ -804,4 +804,14 @@ func init() {
 		},
 	})
 	_ = ast.IsExported
+}
+
+// unmarkAddr: result paths marked as addresses ("&P0.f": a pointer into memory that existed before the call) count
+// like the memory they point into.
+func unmarkAddr(ps pset) pset {
+	out := pset{}
+	for p := range ps {
+		out.add(strings.TrimPrefix(p, "&"))
+	}
+	return out
 }
